@@ -35,9 +35,54 @@ def random_bytes(rng, n):
     return rng.getrandbits(8 * n).to_bytes(n, 'little') if n else b''
 
 
+def defaultish_regions(rng):
+    """Regions that look like what PICO-8 itself leaves in barely used carts: per sfx pattern a header from a small set
+    (unused 00 10 00 00, 00 01 00 00, all zero, ...) with or without notes, per music pattern the default silent channels
+    41 42 43 44 or variations, mostly-zero gfx/map/gff.  'Special' lines a reader or writer may short-cut live here."""
+    sfx = bytearray()
+    for i in range(64):
+        hdr = rng.choice(((0, 16, 0, 0), (0, 16, 0, 0), (0, 1, 0, 0), (0, 0, 0, 0), (1, 16, 0, 0), (0, 16, 0, 32), (0, 32, 4, 8),
+                          (rng.randrange(256), rng.randrange(256), rng.randrange(64), rng.randrange(64))))
+        r = rng.random()
+        if r < 0.6:
+            notes = bytes(64)
+        elif r < 0.8:
+            notes = bytearray(64)
+            k = rng.randrange(32)
+            notes[k * 2:k * 2 + 2] = random_bytes(rng, 2)
+            notes = bytes(notes)
+        else:
+            notes = random_bytes(rng, 64)
+        sfx += notes + bytes(hdr)
+    music = bytearray()
+    for i in range(64):
+        r = rng.random()
+        if r < 0.5:
+            pat = [0x41, 0x42, 0x43, 0x44]
+        elif r < 0.7:
+            pat = [rng.randrange(64), 0x42, 0x43, 0x44]
+        elif r < 0.85:
+            pat = [rng.choice((0x40, 0x41, 0x45, 0x7f, rng.randrange(128))) for _ in range(4)]
+        else:
+            pat = [rng.randrange(256) for _ in range(4)]
+        if rng.random() < 0.2:
+            pat[rng.randrange(3)] |= 0x80
+        music += bytes(pat)
+    out = {'sfx': bytes(sfx), 'music': bytes(music)}
+    for n, sz in (('gfx', 8192), ('map', 4096), ('gff', 256)):
+        b = bytearray(sz)
+        if rng.random() < 0.6:
+            for _ in range(rng.randint(1, 20)):
+                b[rng.randrange(sz)] = rng.randrange(256)
+        out[n] = bytes(b)
+    return out
+
+
 def random_regions(rng, mode=None):
     """mode: 'uniform' | 'sparse' | 'zero' | 'ff' | 'structured' (random if None)."""
-    mode = mode or rng.choice(('uniform', 'uniform', 'sparse', 'structured', 'zero', 'ff'))
+    mode = mode or rng.choice(('uniform', 'uniform', 'sparse', 'structured', 'zero', 'ff', 'defaultish', 'defaultish'))
+    if mode == 'defaultish':
+        return defaultish_regions(rng), mode
     out = {}
     for n, _ in REGIONS:
         sz = REGION_SIZES[n]
